@@ -35,7 +35,7 @@ DISCM = "msmart.discover."
 CLOUDM = "msmart.cloud."
 
 PROPS = {
-    "C01": {"targets": ["C01.spec_decoders_invert", "msmart.lan._LanProtocol.data_received#v2_segmentation",
+    "C01": {"targets": [AC + ".__init__", LANC + ".__init__", "C01.spec_decoders_invert", "msmart.lan._LanProtocol.data_received#v2_segmentation",
                         (AC + ".apply", r"c10\.|control_first|noraise"), CMD + "SetStateCommand.tobytes", CMD + "Command.tobytes", "msmart.frame.Frame.tobytes",
                         AC + "._send_command_get_responses", DEVB + "._send_command#transport", LANC + ".send", LANC + "._read",
                         LANM + "_Packet.encode", LANM + "_Packet.decode", LANM + "_Packet.decode#interop",
@@ -61,7 +61,7 @@ PROPS = {
                         V3 + "._process_packet#interop", V3 + ".write"], "level": "proof"},
     "C06": {"targets": [LANC + ".authenticate#hex_credentials", V3 + "._process_packet", V3 + ".read", V3 + "._encode_handshake_request", V3 + "._get_local_key", V3 + "._get_local_key#genuine", V3 + ".authenticate",
                         LANM + "_LanProtocol._flush", V3 + ".write", LANC + ".authenticate", DEVB + ".authenticate"], "level": "proof"},
-    "C07": {"targets": [V3 + ".__init__", LANM + "_LanProtocol.__init__", V3 + ".write", LANM + "_LanProtocol.write", V3 + ".authenticate", V3 + ".authenticated", LANM + "_LanProtocol.alive",
+    "C07": {"targets": [LANC + ".__init__", LANC + ".max_connection_lifetime!setter", V3 + ".__init__", LANM + "_LanProtocol.__init__", V3 + ".write", LANM + "_LanProtocol.write", V3 + ".authenticate", V3 + ".authenticated", LANM + "_LanProtocol.alive",
                         LANC + "._alive", LANC + "._connect", LANC + "._disconnect", LANC + ".authenticate", LANC + ".send"], "level": "proof"},
     "C08": {"targets": [LANC + ".send", LANC + ".authenticate", LANC + "._connect", LANC + "._disconnect", LANC + "._read", V3 + ".read", LANM + "_LanProtocol.read",
                         LANC + "._read_available", DEVB + "._send_command#transport", "msmart.device.AC.device.AirConditioner.refresh#no_valid_response"],
@@ -69,7 +69,7 @@ PROPS = {
     "C09": {"targets": [LANM + "_Packet.decode", V3 + "._process_packet", V3 + "._decode_encrypted_response", V3 + "._get_local_key",
                         V3 + ".read", LANM + "_LanProtocol.read", LANC + "._read", LANC + "._read_available", LANC + ".send",
                         LANC + ".authenticate", DEVB + "._send_command#transport", DEVB + ".authenticate"], "level": "proof"},
-    "C10": {"targets": [AC + ".beep!setter", AC + ".power_state!setter", AC + ".fahrenheit!setter", AC + ".target_temperature!setter", AC + ".operational_mode!setter", AC + ".swing_mode!setter", AC + ".eco!setter", AC + ".turbo!setter", AC + ".freeze_protection!setter", AC + ".sleep!setter", AC + ".follow_me!setter", AC + ".purifier!setter", AC + ".target_humidity!setter", AC + ".aux_mode!setter", AC + ".fan_speed!setter",
+    "C10": {"targets": [AC + ".__init__", AC + ".beep!setter", AC + ".power_state!setter", AC + ".fahrenheit!setter", AC + ".target_temperature!setter", AC + ".operational_mode!setter", AC + ".swing_mode!setter", AC + ".eco!setter", AC + ".turbo!setter", AC + ".freeze_protection!setter", AC + ".sleep!setter", AC + ".follow_me!setter", AC + ".purifier!setter", AC + ".target_humidity!setter", AC + ".aux_mode!setter", AC + ".fan_speed!setter",
                         CMD + "SetStateCommand.__init__", CMD + "SetStateCommand.tobytes", CMD + "Command.tobytes",
                         CMD + "Command._next_message_id", "msmart.frame.Frame.tobytes", "msmart.frame.Frame.checksum",
                         "msmart.crc8.calculate", "crc8.table", "crc8.step_range",
@@ -99,7 +99,7 @@ PROPS = {
                         CMD + "CapabilitiesResponse._parse_capabilities#wf", CMD + "CapabilitiesResponse.merge",
                         AC + ".get_capabilities", AC + "._update_capabilities"],
             "level": "proof"},
-    "C16": {"targets": [CMD + "PropertyId.encode", CMD + "PropertyId.decode", "C16.read_back", "C16.at_most_one_breeze_mode",
+    "C16": {"targets": [AC + ".__init__", CMD + "PropertyId.encode", CMD + "PropertyId.decode", "C16.read_back", "C16.at_most_one_breeze_mode",
                         AC + ".breeze_away!setter", AC + ".breezeless!setter", AC + ".breeze_mild!setter", AC + ".ieco!setter",
                         AC + ".rate_select!setter", AC + ".horizontal_swing_angle!setter", AC + ".vertical_swing_angle!setter",
                         CMD + "SetPropertiesCommand.__init__", CMD + "SetPropertiesCommand.tobytes",
